@@ -1,5 +1,6 @@
 (* C08 -- NNX vmap/scan/grad match the loop, the stack and jax.grad of the functional form. *)
-From Flaxm Require Import Lib.Harness Model.NnxFilters Model.NnxLift Proofs.NnxLift.
+From Coq Require Import ZArith.
+From Flaxm Require Import Lib.Harness Model.NnxFilters Model.NnxLift Model.Axes Proofs.NnxLift Proofs.Axes.
 
 (* StateAxes: every Variable gets the axis of the FIRST filter that matches it *)
 Theorem C08_axis_of_first_match : forall sa v s, spec_of sa v = Some s ->
@@ -40,6 +41,17 @@ Proof. exact deriv_is_derivative. Qed.
 Print Assumptions C08_deriv_is_derivative.
 
 (* F22 inside the model: a body that increments a broadcast Variable; scan drops the write, the loop keeps it *)
+(* the axis arithmetic of nnx.scan / nnx.vmap state: jnp.moveaxis(x, axis, 0) on the way in and jnp.moveaxis(x, 0, axis)
+   on the way out are the transpositions to_front / from_front, which are inverse for every rank and (negative) axis *)
+Theorem C08_moveaxis_in : forall n ax, 0 < n -> moveaxis_perm n ax 0 = to_front_perm n ax.
+Proof. exact moveaxis_to_front. Qed.
+Theorem C08_moveaxis_out : forall n ax, valid_axis n ax -> moveaxis_perm n 0 ax = from_front_perm n ax.
+Proof. exact moveaxis_from_front. Qed.
+Theorem C08_moveaxis_inverse : forall n ax, valid_axis n ax -> 0 < n ->
+  compose_perm (moveaxis_perm n ax 0) (moveaxis_perm n 0 ax) = seq 0 n.
+Proof. exact moveaxis_inverse. Qed.
+Print Assumptions C08_moveaxis_inverse.
+
 Example C08_broadcast_write_refuted :
   let specs := [SAxis 0; SNone] in
   let b := mkBody [BAddTo 1 (BConst 1); BSetC (BAdd BC (BAdd BX (BSum 1)))] BC in
